@@ -2,6 +2,7 @@ import Driver.Ops.Cidr
 import Driver.Ops.Conc
 import Driver.Ops.Lifecycle
 import Driver.Ops.Merge
+import Driver.Ops.TextFile
 import Driver.Ops.Tftp
 /-
 Line protocol: one JSON object per input line with a field "op"; one JSON object per
@@ -14,6 +15,7 @@ def allOps : List (String × Op) :=
   Driver.Conc.ops ++
   Driver.Lifecycle.ops ++
   Driver.Merge.ops ++
+  Driver.TextFile.ops ++
   Driver.Tftp.ops
 
 def handleLine (line : String) : String :=
